@@ -145,6 +145,14 @@ def instances(tier, seed):
             s.cons.append(Con('<=', X(0) - t * x1_, 5, grid='integrator_roots'))
         add(fam.with_horizon(s, (('num', Fr(1, 2)), ('num', Fr(2)))), Cfg(method, N=N, M=M, intg=intg or 'rk', grid=[fam.G_UNI, fam.G_GEO_LOC][mi % 2], degree=[2, 1][mi % 2], scheme='radau'),
             rehorizon=(Fr(0), Fr(4)))
+    # a path constraint on a declared QUADRATURE state (alone and next to a state): one instance per control node
+    from ..dsl import Q
+    for mi, (method, intg) in enumerate((('MS', 'rk'), ('DC', None), ('SS', 'rk'), ('MS', 'expl_euler'))):
+        s = copy.deepcopy(fam.ode_core()[mi % 3])
+        s.quads = [X(0) * X(0) + t]
+        s.cons = [Con('<=', Q(0), 5), Con('>=', Q(0) + X(0) * t, -4, include_first=False), Con('<=', at_tf(Q(0)), 3)]
+        add(fam.with_horizon(s, fam.HORIZONS[(2 * mi + 1) % len(fam.HORIZONS)] if method != 'DC' else Hsym[mi % len(Hsym)]),
+            Cfg(method, N=[2, 3][mi % 2], M=[2, 1][mi % 2], intg=intg or 'rk', grid=[fam.G_UNI, fam.G_GEO_LOC][mi % 2], degree=2, scheme='radau'))
     # matrix-valued per-interval variable and parameter (element access inside constraints)
     for method, intg, N in (('MS', 'rk', 3), ('DC', None, 2), ('SS', 'rk', 2)):
         s = copy.deepcopy(fam.ode_core()[0])
